@@ -67,7 +67,8 @@ def _source_len(q: str, doc: Any) -> int:
 def generate(seed: int, config: str, tier: str) -> Dict[str, Any]:
     rng = core.stream(seed, "gen")
     prof = gen_json.profile(rng)
-    want = rng.choice([0, 1, 2, 3, 4, 5, 6, 7, 8])
+    deep = tier == "thorough"  # longer sequences and histories in the thorough tier
+    want = rng.choice([0, 1, 2, 3, 4, 5, 6, 7, 8] + ([9, 10, 12] if deep else []))
     doc: Any = None
     query = "$[*]"
     if rng.random() < 0.5:
@@ -80,7 +81,7 @@ def generate(seed: int, config: str, tier: str) -> Dict[str, Any]:
             qs = gen_query.gen_queries(rng, _SCRATCH_ENV, d, 1, p_compound=0.25)
             q = qs[0] if rng.random() < 0.7 else rng.choice(["$..*", "$[*]", "$..[*]", "$.*"])
             n = _source_len(q, d)
-            if n < 0 or n > 8:
+            if n < 0 or n > (12 if deep else 8):
                 continue
             if best is None or abs(n - want) < abs(best[0] - want):
                 best = (n, d, q)
@@ -91,7 +92,7 @@ def generate(seed: int, config: str, tier: str) -> Dict[str, Any]:
         else:
             _, doc, query = best
     L = max(_source_len(query, doc), 0)
-    n_ops = rng.randint(1, 25) if rng.random() < 0.7 else rng.randint(1, 6)
+    n_ops = rng.randint(1, 40 if deep else 25) if rng.random() < 0.7 else rng.randint(1, 6)
     p_neg = rng.choice([0.0, 0.0, 0.05, 0.15])
     weights = {
         "limit": 3, "head": 1, "first": 1, "skip": 3, "drop": 1, "tail": 2, "last": 1,
